@@ -216,7 +216,7 @@ Proof. cbn. split; [right; repeat constructor | vm_compute; reflexivity]. Qed.
 (* ---------- the whole extracted checker on the model's own output *)
 Definition case_good (c : case) : Prop :=
   match c with
-  | CNameC _ | CTr _ _ _ | CLg _ _ _ => True
+  | CNameC _ | CTr _ _ _ | CLg _ _ _ | CPur => True
   | CUnitC s => has_nul s = false
   | CPred k raw s => pred_model k raw s <> None
   | CMet r d vs keys ops => met_good r d vs keys ops
@@ -231,6 +231,7 @@ Definition model_obs (c : case) : list tok :=
   | CTr r d ops => print_tr (run_tr r d ops)
   | CLg r d ops => print_lg (run_lg r d ops)
   | CPrace kind r d threads => flat_map print_hobs (prace_model kind r d threads)
+  | CPur => [tag "PURE"]
   end.
 Definition spec_on (c : case) : list tok :=
   match c with
@@ -241,11 +242,12 @@ Definition spec_on (c : case) : list tok :=
   | CTr r d ops => spec_tr r d ops (ts_out (run_tr r d ops)) (ts_spans (run_tr r d ops))
   | CLg r d ops => spec_lg r d ops (ls_out (run_lg r d ops)) (ls_recs (run_lg r d ops))
   | CPrace kind r d threads => spec_prace r d threads (prace_model kind r d threads)
+  | CPur => spec_purity [tag "PURE"]
   end.
 
 Lemma model_meets_spec_lemma : forall c, case_good c -> spec_on c = [].
 Proof.
-  intros [s | s | k raw s | r d vs keys ops | r d ops | r d ops | kind r d threads] H; cbn [spec_on].
+  intros [s | s | k raw s | r d vs keys ops | r d ops | r d ops | kind r d threads |] H; cbn [spec_on].
   - apply model_meets_spec_name.
   - now apply model_meets_spec_unit.
   - destruct (pred_model k raw s) eqn:E; [now apply model_meets_spec_pred | reflexivity].
@@ -253,4 +255,5 @@ Proof.
   - apply model_meets_spec_tr.
   - apply model_meets_spec_lg.
   - now apply model_meets_spec_prace.
+  - reflexivity.
 Qed.
